@@ -84,11 +84,59 @@ def _trace_stats(path):
                 k = "window:%s:%s" % ("straddle" if lo > hi else "plain",
                                       "in" if (cur - lo) % (1 << 32) < w else "out")
             c[k] = c.get(k, 0) + 1
+        if o["ev"] == "fresh":
+            # kind derived from the inputs only: where the timestamp lies
+            # relative to the clock, and whether the two are on different
+            # sides of the wrap-around
+            now = _val(o["now"])
+            d = (cur - now) % (1 << 32)
+            if d == 300 or d == (1 << 32) - 3600:
+                k = "fresh:end"
+            elif d <= 300 or d >= (1 << 32) - 3600:
+                k = "fresh:in:%s" % ("straddle" if (cur < now) != (d >= 1 << 31) else "plain")
+            elif d == 1 << 31:
+                k = "fresh:half"
+            else:
+                k = "fresh:out:%s" % ("above" if cur > now else "below")
+            c[k] = c.get(k, 0) + 1
         if o["ev"] == "set" or (o["ev"] in ("text", "instant") and "ok" in o["got"]):
             cur = (o["v"][0] << 16) | o["v"][1]
         elif o["ev"] in ("add", "zonebump") and "ok" in o["serial"]:
             cur = (o["serial"]["ok"][0] << 16) | o["serial"]["ok"][1]
     return c
+
+
+def _site_table(cases_path):
+    """the site table as the specification has it: the `sites` case of the
+    generator (kind -> site -> operator; the executor had to return the same),
+    joined with the api column of spec/SerialSites.tla"""
+    table = None
+    with open(cases_path) as f:
+        for line in f:
+            if '"kind":"sites"' in line:
+                table = json.loads(line)["exp"]
+                break
+    if table is None:
+        raise vlib.ToolError("the generator did not emit the site table")
+    text = open(os.path.join(vlib.SPEC, "SerialSites.tla")).read()
+    api = {}
+    for m in re.finditer(r'\[kind \|-> "(\w+)", site \|-> "(\w+)",\s+op \|-> "(\w+)",\s+api \|-> "([^"]*)"\]',
+                         text):
+        api[(m.group(1), m.group(2))] = (m.group(3), m.group(4))
+    rows = []
+    for kind in sorted(table):
+        for site in sorted(table[kind]):
+            op, a = api.get((kind, site), (None, None))
+            if op != table[kind][site]:
+                raise vlib.ToolError("site table: %s/%s is %r in the generated case, %r in "
+                                     "SerialSites.tla" % (kind, site, table[kind][site], op))
+            rows.append({"kind": kind, "site": site, "operator": op, "api": a})
+    if len(rows) != len(api):
+        raise vlib.ToolError("site table: %d rows generated, %d in SerialSites.tla"
+                             % (len(rows), len(api)))
+    not_bound = [{"site": m.group(1), "why": m.group(2)} for m in
+                 re.finditer(r'\[site \|-> "([^"]*)", why \|-> "([^"]*)"\]', text)]
+    return rows, not_bound
 
 
 def _val(limbs):
@@ -143,6 +191,8 @@ def _reject_to_violation(ctx, trace_path, rej, what):
         call = "instant %d %d" % (ev["era"] + 4, _val(ev["v"]))
     elif ev.get("ev") == "window":
         call = "window %d %d %d" % (cur, _val(ev["lo"]), _val(ev["hi"]))
+    elif ev.get("ev") == "fresh":
+        call = "fresh %d %d" % (cur, _val(ev["now"]))
     else:
         raise vlib.ToolError("trace rejected at a %r event: %r" % (ev.get("ev"), rej))
     ok, rej2 = _confirm(ctx, [call], "confirm")
@@ -229,6 +279,11 @@ def run(ctx):
                  workers=8, label="mc-window", timeout=3000)
     ctx.require_ok(wn, "MC_SerialWindow")
     ctx.require_actions(wn, ["Init", "Shift", "Slide", "Renew"])
+    # freshness of a timestamp at a clock value (server cookies middleware)
+    fr = ctx.tlc("MC_SerialSites", "MC_SerialSites_thorough" if thorough else "MC_SerialSites",
+                 workers=8, label="mc-sites", timeout=3000)
+    ctx.require_ok(fr, "MC_SerialSites")
+    ctx.require_actions(fr, ["Init", "Shift", "Tick", "Renew"])
     # the limb model used for 32-bit operands equals the integer model
     lim = ctx.tlc("MC_SerialLimbs", "MC_SerialLimbs_thorough" if thorough else "MC_SerialLimbs",
                   workers=8, label="limbs-equiv", timeout=3000)
@@ -267,6 +322,8 @@ def run(ctx):
                                           stdin_path=head)
             ctx.selftest("perturbed expectation is reported by replay_serial", "FAIL " in out)
         ctx.replay_cases("replay_serial", cases, label="serial-" + tag)
+        if tag == "k8":
+            sites_bound, sites_not_bound = _site_table(cases)
 
     # text entry points: every pair of times in 3 eras, as dates and integers
     tcases = os.path.join(ctx.work, "cases-text.ndjson")
@@ -320,6 +377,40 @@ def run(ctx):
         kinds_total["window_" + k] = v
     ctx.replay_cases("replay_serial", wcases, label="serial-window")
 
+    # freshness: every k-bit (clock, timestamp) pair, lifted by TLC in limb
+    # form around both ends of the middleware's fixed window
+    fcases = os.path.join(ctx.work, "cases-fresh.ndjson")
+    fg = ctx.tlc("MC_SerialSites",
+                 "Gen_SerialSites_thorough" if thorough else "Gen_SerialSites",
+                 workers=8, label="gen-fresh", coverage=False, cases_to=fcases, count=False,
+                 timeout=3000)
+    ctx.require_ok(fg, "Gen_SerialSites")
+    fk = {"accept": 0, "reject": 0, "any": 0, "straddle_accept": 0, "half_reject": 0,
+          "above_reject": 0, "below_reject": 0}
+    with open(fcases) as f:
+        for line in f:
+            m = re.search(r'"mwprefetch":"(accept|reject|any)"', line)
+            if not m:
+                continue
+            fk[m.group(1)] += 1
+            o = json.loads(line)["in"]
+            now, ts = _val(o["now"]), _val(o["ts"])
+            if m.group(1) == "accept" and o["straddle"]:
+                fk["straddle_accept"] += 1
+            if m.group(1) == "reject":
+                if (ts - now) % (1 << 32) == 1 << 31:
+                    fk["half_reject"] += 1
+                elif ts > now:
+                    fk["above_reject"] += 1
+                else:
+                    fk["below_reject"] += 1
+    missing = [k for k, v in fk.items() if v == 0]
+    if missing:
+        raise vlib.ToolError("vacuity: freshness cases never have %s" % missing)
+    for k, v in fk.items():
+        kinds_total["fresh_" + k] = v
+    ctx.replay_cases("replay_serial", fcases, label="serial-fresh")
+
     # placement cases: every (reference time in 3 eras, serial) pair
     pcases = os.path.join(ctx.work, "cases-place.ndjson")
     pg = ctx.tlc("MC_SerialPlace", "Gen_SerialPlace_thorough" if thorough else "Gen_SerialPlace",
@@ -365,7 +456,7 @@ def run(ctx):
             ctx.sample(json.loads(lines[2]))
             # binding self-tests: TLC must reject a corrupted comparison
             # result and a corrupted sum
-            for kind in ("cmp", "add", "window"):
+            for kind in ("cmp", "add", "window", "newts", "fresh"):
                 bad = os.path.join(ctx.work, "trace-bad-%s.ndjson" % kind)
                 lines2 = list(lines)
                 for j, l in enumerate(lines2):
@@ -376,6 +467,18 @@ def run(ctx):
                         break
                     if kind == "add" and o["ev"] == "add" and "ok" in o["serial"] and j > 100:
                         o["serial"]["ok"][1] ^= 1
+                        lines2[j] = json.dumps(o)
+                        break
+                    if kind == "newts" and o["ev"] == "cmp" and o["newts"] == "UNDEF":
+                        o["newts"] = "LT"
+                        o["newtsrev"] = "LT"
+                        lines2[j] = json.dumps(o)
+                        break
+                    if (kind == "fresh" and o["ev"] == "fresh" and j > 100
+                            and o["mwprefetch"] == "reject" and o["mwdenied"] == "reject"
+                            and (_val(o["now"]) - _cur_before(tr, j + 1)) % (1 << 32) > 1 << 31):
+                        o["mwprefetch"] = "accept"
+                        o["mwdenied"] = "accept"
                         lines2[j] = json.dumps(o)
                         break
                     if (kind == "window" and o["ev"] == "window" and j > 100
@@ -393,7 +496,9 @@ def run(ctx):
             "place:era1:up", "place:era1:down", "place:era2:up", "place:half",
             "text:era0", "text:era1", "text:era2", "instant:pre", "instant:post",
             "window:plain:in", "window:plain:out", "window:straddle:in",
-            "window:straddle:out", "window:illformed"]
+            "window:straddle:out", "window:illformed",
+            "fresh:in:plain", "fresh:in:straddle", "fresh:end", "fresh:half",
+            "fresh:out:above", "fresh:out:below"]
     tstats["place:half"] = sum(v for k, v in tstats.items()
                                if k.startswith("place:") and k.endswith(":half"))
     missing = [k for k in need if tstats.get(k, 0) == 0]
@@ -436,6 +541,8 @@ def run(ctx):
     ctx.stage("apalache", apa)
 
     ctx.extra = {
+        "sites_bound": sites_bound,
+        "sites_listed_not_bound": sites_not_bound,
         "generated_case_outcomes": kinds_total,
         "trace_event_kinds": tstats,
         "trace_events_validated": events_validated,
